@@ -8,6 +8,7 @@ import StimModel.Model.Counts
 import StimModel.Model.Algebra
 import StimModel.Model.FSim
 import StimModel.Model.DemSem
+import StimModel.Model.Search
 /-! Line-protocol dispatcher: one request line in, one answer line out. -/
 namespace Stim.Driver
 open Stim Stim.Wire
@@ -688,6 +689,147 @@ def demsampleCheck (toks : List String) : String :=
       go 0 rest
   | _ => "bad-request"
 
+/-- `search check <kind> <flag> <dem> (none | <result dem>)` : kind `graph` (flag = ignore_ungraphlike) or `hyper` (flag = truncated).
+    The returned error list must consist of elements of the model, cancel all detectors, flip an observable, and (unless truncated)
+    have the minimum possible size; `none` (an exception) is right only when no solution exists (or, for `graph` without the ignore flag,
+    when the model has a non-graphlike error). -/
+def searchCheck (toks : List String) : String :=
+  match toks with
+  | kind :: flag :: rest =>
+    match parseDem rest with
+    | some (m, rest2) =>
+      let els? : Option (List Elem) := if kind == "graph" then graphElems m (flag == "1") else some (hyperElems m)
+      match els?, rest2 with
+      | none, ["none"] => "ok"
+      | none, _ => "should-reject-ungraphlike"
+      | some els, ["none"] =>
+        if els.length > 16 then "ok-unchecked" else
+        (match minLogical els with | none => "ok" | some k => s!"solution-exists size={k}")
+      | some els, resToks =>
+        match parseDem resToks with
+        | some (r, []) =>
+          let got : List Elem := r.flat.filterMap fun | .error _ _ ts => some (elemOf ts) | _ => none
+          let total := got.foldl Elem.add Elem.zero
+          if got.any (fun e => !(els.contains e)) then "not-an-element-of-the-model"
+          else if !isLogical total then "not-an-undetectable-logical-error"
+          else if kind == "hyper" && flag == "1" then "ok"
+          else if els.length > 16 then "ok-unchecked"
+          else (match minLogical els with
+            | some k => if got.length == k then "ok" else s!"not-minimal got={got.length} min={k}"
+            | none => "no-solution-should-exist")
+        | _ => "bad-request"
+    | none => "bad-request"
+  | _ => "bad-request"
+
+structure WClause where
+  w : Nat
+  lits : List Int
+deriving Repr
+
+/-- tokens of a WCNF text with `N` marking line ends -/
+def parseWcnf (toks : List String) : Option (Nat × Nat × Nat × List WClause) :=
+  let lines := (toks.foldl (fun (acc : List (List String) × List String) t =>
+    if t == "N" then (acc.1 ++ [acc.2], []) else (acc.1, acc.2 ++ [t])) ([], [])).1.filter (!·.isEmpty)
+  match lines with
+  | ["p", "wcnf", nv, nc, top] :: cls =>
+    match nv.toNat?, nc.toNat?, top.toNat? with
+    | some nv, some nc, some top =>
+      let parsed := cls.mapM fun l =>
+        match l with
+        | w :: rest =>
+          match w.toNat?, rest.mapM String.toInt? with
+          | some w, some ls => if ls.getLast? == some 0 then some (⟨w, ls.dropLast⟩ : WClause) else none
+          | _, _ => none
+        | [] => none
+      parsed.map fun cs => (nv, nc, top, cs)
+    | _, _, _ => none
+  | _ => none
+
+/-- unit propagation over hard clauses from a partial assignment (variable ↦ value); none on conflict -/
+def unitProp (hard : List (List Int)) : Nat → List (Nat × Bool) → Option (List (Nat × Bool))
+  | 0, asg => some asg
+  | fuel+1, asg =>
+    let val (l : Int) : Option Bool := (asg.find? (·.1 == l.natAbs)).map fun (_, v) => if l > 0 then v else !v
+    let step := hard.foldl (fun (acc : Option (List (Nat × Bool)) × Bool) c =>
+      match acc.1 with
+      | none => acc
+      | some a =>
+        let val' (l : Int) : Option Bool := (a.find? (·.1 == l.natAbs)).map fun (_, v) => if l > 0 then v else !v
+        if c.any (fun l => val' l == some true) then acc
+        else
+          let unassigned := c.filter (fun l => (val' l).isNone)
+          match unassigned with
+          | [] => (none, true)
+          | [l] => (some ((l.natAbs, l > 0) :: a), true)
+          | _ => acc) (some asg, false)
+    let _ := val
+    match step with
+    | (none, _) => none
+    | (some a, changed) => if changed then unitProp hard fuel a else some a
+
+/-- `search wcnf <weighted 0|1> <quantization> <dem> <wcnf tokens…>` -/
+def wcnfCheck (toks : List String) : String :=
+  match toks with
+  | wS :: qS :: rest =>
+    match parseDem rest with
+    | some (m, wtoks) =>
+      let weighted := wS == "1"
+      let errsAll : List (Rat × Elem) := m.flat.filterMap fun | .error p _ ts => some (ratOfBits p, elemOf ts) | _ => none
+      let ne := errsAll.length
+      match parseWcnf wtoks with
+      | none => "malformed-wcnf"
+      | some (nv, _, top, cs) =>
+        if cs.any (fun c => c.lits.any fun l => l == 0 || l.natAbs > nv) then "literal-names-undeclared-variable"
+        else
+        let hard := (cs.filter (·.w == top)).map (·.lits)
+        let soft := cs.filter (·.w != top)
+        if ne > 13 then "ok-unchecked" else
+        -- the fixed unsatisfiable instance is the right answer exactly when no undetectable logical error exists
+        if nv == 1 && soft.isEmpty && hard.contains [-1] && hard.contains [1] then
+          let usableEls := errsAll.filterMap fun (p, e) => if weighted && p == 0 then none else some e
+          (match minLogical usableEls.eraseDups with | none => "ok" | some k => s!"unsat-instance-but-solution-exists size={k}")
+        else
+        -- exhaustive optimum of the WCNF over the error variables (1..ne); auxiliary variables follow by unit propagation
+        let costs : List (Option Nat × Elem × List Bool) := (List.range (2^ne)).map fun mask =>
+          let bitsL := (List.range ne).map fun i => (mask / 2^i) % 2 == 1
+          let asg := (bitsL.zipIdx).map fun (b, i) => (i + 1, b)
+          let total := ((errsAll.zip bitsL).filter (·.2)).foldl (fun acc ((_, e), _) => acc.add e) Elem.zero
+          match unitProp hard (nv + 2) asg with
+          | none => (none, total, bitsL)
+          | some full =>
+            let val (l : Int) : Bool := ((full.find? (·.1 == l.natAbs)).map fun (_, v) => if l > 0 then v else !v).getD false
+            if hard.all (fun c => c.any val) then
+              (some (soft.foldl (fun acc c => if c.lits.any val then acc else acc + c.w) 0), total, bitsL)
+            else (none, total, bitsL)
+        -- (a) feasibility must coincide with "is an undetectable logical error" for the participating errors
+        let usable (i : Nat) : Bool := !weighted || (errsAll.getD i (0, Elem.zero)).1 != 0
+        let wrongFeas := costs.find? fun (c, total, bitsL) =>
+          let onlyUsable := (bitsL.zipIdx).all fun (b, i) => !b || usable i
+          onlyUsable && (c.isSome != isLogical total)
+        match wrongFeas with
+        | some (c, total, bitsL) => s!"feasibility-mismatch errors={strOfBits bitsL} sat={c.isSome} logical={isLogical total}"
+        | none =>
+          if !weighted then
+            -- (b) every soft clause is a unit clause of weight 1 on an error variable, one per error
+            let softOk := soft.length == ne && soft.all fun c => c.w == 1 && (match c.lits with | [l] => l < 0 && l.natAbs ≤ ne | _ => false)
+            if softOk then "ok" else "soft-clauses-differ"
+          else
+            let q := (qS.toNat?.getD 1).toFloat
+            let lw (p : Rat) : Float :=
+              let pf := (p.num.toNat.toFloat) / (p.den.toFloat)
+              Float.abs (Float.log (pf / (1 - pf)))
+            let ws := errsAll.filterMap fun (p, _) => if p == 0 || p == 1/2 then none else some (lw p)
+            let maxw := ws.foldl max 0
+            let expected : List (Nat × Nat × Bool) := (errsAll.zipIdx).filterMap fun ((p, _), i) =>
+              if p == 0 || p == 1/2 then none else
+              let wq := (Float.round (lw p / maxw * q)).toUInt64.toNat
+              if wq == 0 then none else some (i + 1, wq, decide (p < 1/2))
+            let allMatch := expected.all fun (v, wq, lt) => soft.any fun c =>
+              (c.lits == [if lt then -(Int.ofNat v) else Int.ofNat v]) && (c.w + 1 ≥ wq && wq + 1 ≥ c.w)
+            if allMatch && soft.length == expected.length then "ok" else "soft-weights-differ"
+    | none => "bad-request"
+  | _ => "bad-request"
+
 def answer (toks : List String) : String :=
   match toks with
   | "tsim" :: "check" :: rest => tsimCheck rest
@@ -702,6 +844,8 @@ def answer (toks : List String) : String :=
   | "demsem" :: "check" :: rest => demsemCheck rest
   | "demsem" :: "decomp" :: rest => demsemDecomp rest
   | "demsample" :: "check" :: rest => demsampleCheck rest
+  | "search" :: "check" :: rest => searchCheck rest
+  | "search" :: "wcnf" :: rest => wcnfCheck rest
   | "circ" :: "counts" :: rest => circCounts rest
   | "circ" :: "shift" :: rest => circShift rest
   | "circ" :: "detcoords" :: rest => circDetCoords rest
